@@ -26,7 +26,7 @@ ASSUMPTIONS = ["re-registering an already registered name is not exercised",
                "the statement"]
 REQUIRED = ["waiters_fired", "fired_on_later_register", "fired_immediately",
             "chained_register", "callback_failed", "ltd_wired", "ltd_events",
-            "lifecycles", "up_deferred", "quits",
+            "lifecycles", "up_deferred", "quits", "quits_during_startup",
             "registrations_by_class_or_core_name", "rendezvous_histories_that_go_up",
             "callbacks_that_are_bound_methods", "declarations_using_the_defaults",
             "waiters_declared_twice", "dependencies_named_by_a_bare_string",
@@ -525,6 +525,18 @@ def run_life (case, rep):
           if "scripted" not in str(e):
             mon.fire("goUp raises", traceback.format_exc()[-500:])
         rep.count("lifecycles")
+      elif op[0] == "early_quit":
+        # quit() while the system is still starting up (a component's launch
+        # function decides that there is nothing to do): it takes effect once
+        # the system is up - going-down and down are still owed, once
+        if went_up or quit_done: continue
+        try:
+          core.quit()
+        except RuntimeError as e:
+          if "scripted" not in str(e):
+            mon.fire("quit raises", traceback.format_exc()[-500:])
+        rep.count("quits_during_startup")
+        quit_done = True
       elif op[0] == "quit":
         if not went_up: continue
         try:
@@ -558,9 +570,14 @@ def run_life (case, rep):
                        + (gu2 or [])):
       rep.count("up_deferred")
     # wait for quit threads (quit() may run _quit on its own thread)
-    for t in threading.enumerate():
-      if t not in threads_before and t is not threading.current_thread():
-        t.join(10)
+    t_end = real_time.time() + 15
+    while real_time.time() < t_end:
+      # (a quit that waits for the end of start-up passes itself on from
+      #  thread to thread)
+      new = [t for t in threading.enumerate()
+             if t not in threads_before and t is not threading.current_thread()]
+      if not new: break
+      for t in new: t.join(1)
     with lock: snap = list(log)
     if quit_done:
       if snap.count("GoingDown") != 1 or snap.count("Down") != 1:
@@ -707,6 +724,8 @@ def gen_life (rng, n):
     elif r < 0.40: extra["on_Up"] = [["quit"]]
     if gu2 and ["release", 20] not in gu2: seq.append(["release", 20])
     seq += [["quit"]] * rng.choice([0, 1, 1, 2, 3])
+    if rng.random() < 0.15 and not any(a[0] == "raise" for a in gu):
+      seq.insert(seq.index(["goup"]), ["early_quit"])
     d = dict(kind="life", ops=seq, goingup=gu)
     d.update(extra)
     if "on_Up" in extra and ["quit"] not in seq: seq.append(["quit"])
